@@ -65,10 +65,8 @@ func (g *pathGen) predExpr(d int) jast.Node {
 		return &jast.Str{V: r.Pick("", "a", "0")}
 	case 8:
 		g.tags["pred:object"] = true
-		if r.Bool() {
-			return lit(O{})
-		}
-		return lit(O{"a": 1.0})
+		// an object is true iff it has a member, whatever the members' values are
+		return lit([]interface{}{O{}, O{"a": 1.0}, O{"zero": 0.0}, O{"e": "", "f": false}, O{"n": A{}}}[r.Intn(5)])
 	case 9:
 		g.tags["pred:missing"] = true
 		return &jast.Name{V: "nothing"}
